@@ -114,17 +114,55 @@ def correspondence(ctx, violations, known_hits):
     if ctx.tier != "quick":
         seq = seq + [t for t in pool if isinstance(t, str)][:40]
     watch = C07.drive_watch(ctx, ctx.cli(), [], [], violations, seq=seq, feat=0)
+    rep = repeated_processes(ctx, violations)
     ctx.cleanup()
     return {
-        "evaluations": r["evaluations"] + watch["rechecks"], "distinct_nontrivial": len(r["sigs"]), "real_watch": watch,
+        "evaluations": r["evaluations"] + watch["rechecks"], "distinct_nontrivial": len(r["sigs"]), "real_watch": watch, "repeated_processes": rep,
         "rule": f"pool of {len(pool)} sources (valid, failing in the lexer, failing after labels were recorded, sharing label names, "
                 "case-differing labels, .break/.orig interleavings; the extension's sources also with the feature switched on once for the whole sequence) : each alone, ordered pairs with a reset in between (all pairs in the "
                 "thorough tier), a third of them also WITHOUT reset (to tie the symbol-table model to the code), random sequences of "
                 "3-6 with resets, threefold repetition; sources recording N labels for N around every growth step of a hash table (1..200 [..2000]) followed by sources that repeat them, share a label name or only reference a label of the predecessor; plus a direct comparison of the implementation's answer for B in a sequence "
-                "with its answer for B alone; one real `lace watch` process driven through versions that succeed without any statement yet record a label (`start .orig`, `here .break`), fail half-way, or only reference a predecessor's label, every re-check vs the model's verdict for that version alone; distinct = distinct (sequence class, outcome, diagnostic)",
+                "with its answer for B alone; eight sources (several undefined / duplicate labels, several errors, warnings) through `lace check` and `lace compile` in 8 separate processes each, everything shown must be identical; one real `lace watch` process driven through versions that succeed without any statement yet record a label (`start .orig`, `here .break`), fail half-way, or only reference a predecessor's label, every re-check vs the model's verdict for that version alone; distinct = distinct (sequence class, outcome, diagnostic)",
         "direct_history_comparisons": direct,
         "outcome_histogram": r["hist"], "samples": r["samples"], "mismatches": r["mismatches"], "profiles": list(profiles),
     }
+
+
+def repeated_processes(ctx, violations):
+    """The same source through `lace check` and `lace compile` in SEPARATE processes, eight times each: everything the user is
+    shown (status, both streams, the object bytes) is the same every time - a result may not depend on a per-process random
+    seed (hash-map iteration order) either.  Sources with several undefined / duplicate labels, several errors, warnings."""
+    import os
+    import clicommon
+    exe = ctx.cli()
+    d = clicommon.fresh_dir(ctx, "c19rep")
+    srcs = ["br a\nld r1 b\nst r2 c\nlea r3 d\njsr e\nsti r4 f\nhalt\n", "a halt\na halt\nb halt\nb halt\nbr zz\nbr yy\n",
+            "ld r0 q1\nld r0 q2\nld r0 q3\nld r0 q4\nld r0 q5\nld r0 q6\nld r0 q7\nld r0 q8\n", ".blkw #-1\n.blkw #-2\nhalt\nbr nowhere\nbr elsewhere\n",
+            "x1 add r0 r0 #1\nx2 add r0 r0 #2\nbr x1\nbr x2\nbr X1\nbr X2\n", "halt\nadd r0 r0 #99\nbr u1\nbr u2\n",
+            "".join("l%d add r0 r0 #1\n" % i for i in range(40)) + "".join("br m%d\n" % i for i in range(12)), "lea r0 s\nputs\nhalt\ns .stringz \"ok\"\n"]
+    def job(i):
+        def run():
+            sub = os.path.join(d, str(i)); os.makedirs(sub, exist_ok=True)
+            open(os.path.join(sub, "p.asm"), "w").write(srcs[i])
+            seen = []
+            for k in range(8):
+                c = clicommon.run_cli(exe, ["check", "p.asm"], sub)
+                m = clicommon.run_cli(exe, ["compile", "p.asm", "o.lc3"], sub)
+                obj = open(os.path.join(sub, "o.lc3"), "rb").read() if os.path.exists(os.path.join(sub, "o.lc3")) else None
+                seen.append((c, m, obj))
+            return seen
+        return run
+    res = clicommon.parallel([job(i) for i in range(len(srcs))])
+    bad = 0
+    for i, seen in enumerate(res):
+        if any(x != seen[0] for x in seen[1:]):
+            bad += 1
+            k = next(j for j, x in enumerate(seen) if x != seen[0])
+            if bad <= 3:
+                violations.append({"kind": "result-differs-between-repetitions", "source": srcs[i], "first_run_check_stderr": seen[0][0][2].decode("utf-8", "replace")[-400:],
+                                   "run_%d_check_stderr" % k: seen[k][0][2].decode("utf-8", "replace")[-400:], "exits": [[x[0][0], x[1][0]] for x in seen]})
+    return {"sources": len(srcs), "runs": len(srcs) * 16, "mismatches": bad,
+            "rule": "each source through `lace check` and `lace compile` in 8 separate processes: exit status, stdout, stderr and object bytes identical every time"}
 
 
 def replay(ctx, payload):
